@@ -391,6 +391,170 @@ impl ReplDriver {
     }
 
     // -----------------------------------------------------------------------
+    // Tour of the bounded model MCAbsTour (spec -> implementation): replay a path exported by
+    // TLC, then try every operation of the alphabet from the state it leads to.
+
+    /// Translate a model operation into a real one and execute it. `log` = emit events.
+    /// Returns false when the operation is not applicable here (outside the properties' quantifier
+    /// or not replayable), in which case nothing was executed.
+    fn tour_step(&mut self, p: &mut Pair, who: &str, op: &Value, log: bool, lin: &mut Lineage) -> bool {
+        let o = op["o"].as_str().unwrap_or("");
+        let quiet = |core: &mut Core, op: &Op| {
+            exec(core, op);
+            core.drain();
+        };
+        match (who, o) {
+            (_, "append") => {
+                let mut blocks: Vec<Vec<u8>> = vec![];
+                for r in op["runs"].as_array().unwrap() {
+                    for _ in 0..r[0].as_u64().unwrap() {
+                        let k = p.wbytes.len() + blocks.len();
+                        blocks.push(vec![(r[2].as_u64().unwrap() as u8).wrapping_mul(40).wrapping_add(k as u8); r[1].as_u64().unwrap() as usize]);
+                    }
+                }
+                let real = if blocks.len() == 1 { Op::Append(blocks[0].clone()) } else { Op::Batch(blocks.clone()) };
+                if who == "w" {
+                    let writable = p.w.hc.as_ref().map(|h| h.info().writeable).unwrap_or(false);
+                    if writable {
+                        p.wbytes.extend(blocks.iter().map(|b| b.len() as u64));
+                    }
+                    if log { self.plain_w(p, &real); } else { quiet(&mut p.w, &real); }
+                } else if log { self.plain_r(p, &real); } else { quiet(&mut p.r, &real); }
+                true
+            }
+            (_, "clear") => {
+                let (s0, e0) = (op["s"].as_u64().unwrap(), op["e"].as_u64().unwrap());
+                let len = if who == "w" { p.w.len() } else { p.r.len() };
+                if s0 >= e0 || s0 >= len {
+                    return false;
+                }
+                if who == "r" {
+                    let (mut probe, res) = Core::open("r", VDisk::from_images(p.r.disk.images()));
+                    if !matches!(res, OpenResult::Ok) || probe.clear(s0, e0)["t"] != "ok" {
+                        return false;
+                    }
+                }
+                let real = Op::Clear(s0, e0);
+                if who == "w" { if log { self.plain_w(p, &real); } else { quiet(&mut p.w, &real); } }
+                else if log { self.plain_r(p, &real); } else { quiet(&mut p.r, &real); }
+                true
+            }
+            (_, "get") | (_, "mro") | (_, "reopen") | (_, "sub") => {
+                let real = match o {
+                    "get" => Op::Get(op["i"].as_u64().unwrap()),
+                    "mro" => Op::Mro,
+                    "reopen" => Op::Reopen,
+                    _ => Op::Sub,
+                };
+                if who == "w" { if log { self.plain_w(p, &real); } else { quiet(&mut p.w, &real); } }
+                else if log { self.plain_r(p, &real); } else { quiet(&mut p.r, &real); }
+                true
+            }
+            ("r", "proof") => {
+                let (rl, wl) = (p.r.len(), p.w.len());
+                let blk = op["blk"].as_i64().unwrap();
+                let hasup = op["hasup"] == true;
+                if hasup != (rl < wl) || (blk < 0 && !hasup) || blk >= wl as i64 {
+                    return false;
+                }
+                let block = if blk >= 0 { Some(RequestBlock { index: blk as u64, nodes: p.r.missing_nodes(blk as u64).unwrap_or(0) }) } else { None };
+                let upgrade = if hasup { Some(RequestUpgrade { start: rl, length: wl - rl }) } else { None };
+                let req = Req { block, hash: None, seek: None, upgrade };
+                if blk >= 0 && !p.w.has(blk as u64).unwrap_or(false) {
+                    return false; // cleared on the writer: there is no proof to replay
+                }
+                if log {
+                    match self.make_proof(p, &req) {
+                        Some(proof) => { self.apply_honest(p, &req, proof, &FaultCfg::none(), lin); true }
+                        None => false,
+                    }
+                } else {
+                    match p.w.create_proof(req.block.clone(), None, None, req.upgrade.clone()) {
+                        Ok(Some(proof)) => { p.r.apply_proof(&proof); p.r.drain(); p.w.drain(); true }
+                        _ => false,
+                    }
+                }
+            }
+            _ => false,
+        }
+    }
+
+    fn tour_pair(&mut self) -> Pair {
+        let kp = test_key_pair();
+        let (w, _) = Core::create("w", VDisk::new(), kp.clone());
+        let (r, _) = Core::create("r", VDisk::new(), public_only(&kp));
+        Pair { w, r, wbytes: vec![] }
+    }
+
+    pub fn tour_run(&mut self, gen: Value, hist: &Value) {
+        let steps = hist.as_array().unwrap().clone();
+        // main line, logged
+        self.rec().emit(json!({"e":"reset","gen":gen}));
+        let mut p = self.tour_pair();
+        let vw = p.w.view();
+        self.rec().emit(json!({"e":"create","c":"w","key":"k1","writable":true,"view":vw}));
+        let vr = p.r.view();
+        self.rec().emit(json!({"e":"create","c":"r","key":"k1","writable":false,"view":vr}));
+        let mut lin = Lineage { start: Start::Images(p.r.disk.images()), ops: vec![] };
+        for st in &steps {
+            if !self.tour_step(&mut p, st[0].as_str().unwrap(), &st[1], true, &mut lin) {
+                self.rec().count("tour_paths_cut", 1);
+                return;
+            }
+        }
+        self.rec().count("histories", 1);
+        self.rec().count("tour_paths", 1);
+        // every operation of the alphabet from here, each from a freshly rebuilt pair
+        let (wl, rl) = (p.w.len(), p.r.len());
+        let mut alphabet: Vec<(&str, Value)> = vec![];
+        for runs in [json!([]), json!([[1, 0, 1]]), json!([[1, 1, 2]]), json!([[2, 1, 1]]), json!([[1, 0, 1], [1, 2, 2]])] {
+            alphabet.push(("w", json!({"o":"append","runs":runs})));
+        }
+        for s0 in 0..wl {
+            for e0 in (s0 + 1)..=(wl + 1) {
+                alphabet.push(("w", json!({"o":"clear","s":s0,"e":e0})));
+            }
+        }
+        for i in 0..=(wl + 1) {
+            alphabet.push(("w", json!({"o":"get","i":i})));
+        }
+        for o in ["mro", "reopen", "sub"] {
+            alphabet.push(("w", json!({"o":o})));
+        }
+        for b in -1..(wl as i64) {
+            alphabet.push(("r", json!({"o":"proof","blk":b,"hasup":rl < wl})));
+        }
+        for i in 0..=(rl + 1) {
+            alphabet.push(("r", json!({"o":"get","i":i})));
+        }
+        alphabet.push(("r", json!({"o":"reopen"})));
+        alphabet.push(("r", json!({"o":"append","runs":[[1, 1, 1]]})));
+        for s0 in 0..rl {
+            alphabet.push(("r", json!({"o":"clear","s":s0,"e":s0 + 1})));
+        }
+        for (who, op) in alphabet {
+            let mut q = self.tour_pair();
+            let mut l2 = Lineage { start: Start::Images(q.r.disk.images()), ops: vec![] };
+            let mut ok = true;
+            for st in &steps {
+                if !self.tour_step(&mut q, st[0].as_str().unwrap(), &st[1], false, &mut l2) {
+                    ok = false;
+                    break;
+                }
+            }
+            if !ok {
+                continue;
+            }
+            // subscribers of the rebuilt pair: the quiet replay subscribed them already
+            self.rec().emit(json!({"e":"push"}));
+            if self.tour_step(&mut q, who, &op, true, &mut l2) {
+                self.rec().count("tour_edges", 1);
+            }
+            self.rec().emit(json!({"e":"pop"}));
+        }
+    }
+
+    // -----------------------------------------------------------------------
     // C08: a replica that fills a whole 32768-block bitfield page out of order
 
     pub fn page_run(&mut self, gen: Value, total: u64, variant: u64) {
@@ -1065,6 +1229,7 @@ pub fn run(args: &[String]) {
     let mut faults = String::new();
     let mut only: Option<usize> = None;
     let mut size = "small".to_string();
+    let mut input = String::new();
     let mut i = 0;
     while i < args.len() {
         let v = args.get(i + 1).cloned().unwrap_or_default();
@@ -1075,6 +1240,7 @@ pub fn run(args: &[String]) {
             "--mode" => mode = v,
             "--faults" => faults = v,
             "--size" => size = v,
+            "--in" => input = v,
             "--only" => only = Some(v.parse().unwrap()),
             x => panic!("unknown argument {x}"),
         }
@@ -1095,6 +1261,14 @@ pub fn run(args: &[String]) {
         cont: true,
         max_points: 0,
     };
+    let tour_lines: Vec<String> = if mode == "tour" {
+        std::fs::read_to_string(&input).unwrap().lines().map(|s| s.to_string()).collect()
+    } else {
+        vec![]
+    };
+    if mode == "tour" {
+        runs = tour_lines.len();
+    }
     for r in 0..runs {
         if only.is_some() && only != Some(r) {
             continue;
@@ -1107,6 +1281,11 @@ pub fn run(args: &[String]) {
         let gen = json!({"drv":"abs","args":format!("repl --seed {seed} --runs {runs} --mode {mode} --size {size} --only {r}{}",
             if faults.is_empty() { String::new() } else { format!(" --faults {faults}") })});
         match mode.as_str() {
+            "tour" => {
+                let hist: Value = serde_json::from_str(&tour_lines[r]).unwrap();
+                let gen = json!({"drv":"abs","args":format!("repl --mode tour --in {input} --only {r}")});
+                rd.tour_run(gen, &hist)
+            }
             "honest" => rd.honest_run(gen, &g, &fc, false),
             "forge" => rd.honest_run(gen, &g, &FaultCfg::none(), true),
             "page" => rd.page_run(gen, 32768 + (r as u64 % 3) * 117, seed.wrapping_add(r as u64)),
